@@ -106,7 +106,7 @@ PROPS = {
                 "copies) x hop sequences of length 1-3 (thorough 1-4) over {knowing, all families unknown, random subset unknown}. Non-trivial = at least one reference "
                 "matched before transfer through a non-identity route and at least one near-equal reference did not match. Distinct = hash of the case JSON.",
         "assumptions": ["registry restriction through the verif hook is a faithful model of a process that lacks those types"],
-        "parts": [rapid("is-transfer", "TestProp", 6000, 100000)],
+        "parts": [rapid("is-transfer", "TestProp", 6000, 48000)],
     },
     "C13": {
         "pkg": "c13",
